@@ -35,7 +35,6 @@ import (
 	"log"
 	"os"
 	"path/filepath"
-	"regexp"
 	"runtime"
 	"sort"
 	"strconv"
@@ -328,7 +327,7 @@ func TestVerifC17Child(t *testing.T) {
 	writeDelay := 6 * time.Millisecond
 	if variant == "conc" {
 		c17Chunk = 1 << 16
-		writeDelay = 12 * time.Millisecond
+		writeDelay = 40 * time.Millisecond
 	}
 	eng, err := c17OpenEngine(dir, mode, commitEvery, writeDelay)
 	if err != nil {
@@ -447,13 +446,13 @@ func TestVerifC17Child(t *testing.T) {
 }
 
 // c17ConcurrentWriters is the workload of the "conc" variant: 4 writer goroutines with different think times
-// (3, 7, 11, 13 ms) issue `per` Do()s each over 3 colliding keys (set / non-idempotent add / delete), one of them
+// (5, 13, 23, 31 ms) issue `per` Do()s each over 3 colliding keys (set / non-idempotent add / delete), one of them
 // also a failing callback. With think times a Do regularly ARRIVES while the periodic commit is waiting for the
 // binlog commit of an earlier write (writers that only run back to back are all blocked on the same binlog commit in
 // wait-for-commit mode and never arrive during that wait). The sequence number of an event and the model state are
 // fixed inside the callback, which the engine serialises, so binlog order == sequence order.
 func c17ConcurrentWriters(eng *Engine, ack *c17AckLog, mu *sync.Mutex, states map[string]bool, cur map[int64]int64, per int, errFail error) {
-	think := []time.Duration{3 * time.Millisecond, 7 * time.Millisecond, 11 * time.Millisecond, 13 * time.Millisecond}
+	think := []time.Duration{5 * time.Millisecond, 13 * time.Millisecond, 23 * time.Millisecond, 31 * time.Millisecond}
 	kinds := []string{"set", "add", "set", "del"}
 	seq := 0
 	var wg sync.WaitGroup
@@ -461,7 +460,7 @@ func c17ConcurrentWriters(eng *Engine, ack *c17AckLog, mu *sync.Mutex, states ma
 		wg.Add(1)
 		go func(g int) {
 			defer wg.Done()
-			time.Sleep(time.Duration(g) * 2 * time.Millisecond)
+			time.Sleep(time.Duration(g) * 7 * time.Millisecond)
 			for j := 0; j < per; j++ {
 				op := c17Op{Kind: kinds[(g+2*j+j/2)%4], K: int64(1 + (g+j)%3), V: int64(10*(g+1) + j), Fill: (g + j) % 7}
 				if g == 1 && j == 1 {
@@ -506,6 +505,9 @@ type c17BinlogState struct {
 	Length   int64 // first global offset not covered by any file
 	Files    []string
 	Problems []string // structural oddities (rotation in progress, short header...), informational
+	// RotationInProgress: the files themselves show a rotate() that was cut short: a chunk without a complete
+	// header, or a chunk that starts 36 bytes (the missing ROTATE_TO) after the end of the previous one
+	RotationInProgress bool
 }
 
 // c17ReadBinlog parses the binlog files of dir with the harness's own reader.
@@ -540,11 +542,18 @@ func c17ReadBinlog(dir string) (c17BinlogState, error) {
 		st.Files = append(st.Files, fmt.Sprintf("%s(%d bytes, pos %d)", e.Name(), len(d), f.pos))
 		if f.pos < 0 {
 			st.Problems = append(st.Problems, fmt.Sprintf("%s: %d bytes, no complete header", e.Name(), len(d)))
+			st.RotationInProgress = true
 			continue
 		}
 		files = append(files, f)
 	}
 	sort.Slice(files, func(i, j int) bool { return files[i].pos < files[j].pos })
+	for i := 1; i < len(files); i++ {
+		if files[i].pos == files[i-1].pos+int64(len(files[i-1].data))+36 {
+			st.Problems = append(st.Problems, fmt.Sprintf("%s has no ROTATE_TO although %s exists", files[i-1].name, files[i].name))
+			st.RotationInProgress = true
+		}
+	}
 	for _, f := range files {
 		l := 0
 	walk:
@@ -1049,7 +1058,6 @@ func c17Model(evs []c17Ev) map[int64]int64 {
 	return m
 }
 
-var c17RotationErr = regexp.MustCompile(`readBinlogHeaderFromFile|Engine\.Skip return new position|not enough data|unexpected EOF|EOF`)
 
 func (c *c17Cfg) check(r *c17Run, rep *mc.Report) (vs []c17Verdict, stateKey string, nontrivial bool) {
 	add := func(sig, desc string, detail map[string]any) {
@@ -1155,7 +1163,7 @@ func (c *c17Cfg) check(r *c17Run, rep *mc.Report) (vs []c17Verdict, stateKey str
 	after, err := c17Restart(b)
 	if err != nil {
 		sig := "restart-fails-after-kill"
-		if len(bl.Problems) > 0 || c17RotationErr.MatchString(err.Error()) {
+		if bl.RotationInProgress { // decided from the files, never from the error text
 			sig = "restart-fails-after-kill-in-binlog-rotation"
 		}
 		add(sig, "the engine cannot be restarted on the crash state: "+err.Error(), withBl(map[string]any{}))
@@ -1204,7 +1212,7 @@ func TestVerifC17(t *testing.T) {
 	rep.Rule = "a case = one real child process running one of the two workloads under the harness's ptrace tracer and killed (SIGKILL at syscall entry) at the N-th write-family syscall on a database or binlog file; every N of the unkilled run, both commit modes; after each kill the 4 clauses are checked on copies of the directory. non-trivial = crash state in which database and binlog disagree before recovery (stored offset behind the binlog end, hot journal, or binlog rotation half done)"
 	rep.Bounds["writes"] = writes
 	rep.Bounds["workload"] = fmt.Sprintf("%d binlog-producing writes over 3-5 colliding keys (set/overwrite/delete/non-idempotent add), 1-2 callbacks that fail after executing SQL, View reads from the main goroutine and from a concurrent reader, 1-2 binlog rotations (MaxChunkSize %d), CommitEvery 10ms, WriteCallDelay 6ms", writes, c17ChunkSize)
-	rep.Bounds["workload_conc"] = fmt.Sprintf("concurrent writers: 4 goroutines with think times 3/7/11/13 ms issue %d Do() each over 3 colliding keys (set / non-idempotent add / delete) plus one failing callback and the concurrent reader; CommitEvery 10ms, WriteCallDelay 12ms, no rotation; sequence numbers and model states are fixed inside the (serialised) callback", mc.Pick(3, 5))
+	rep.Bounds["workload_conc"] = fmt.Sprintf("concurrent writers: 4 goroutines with think times 5/13/23/31 ms issue %d Do() each over 3 colliding keys (set / non-idempotent add / delete) plus one failing callback and the concurrent reader; CommitEvery 10ms, WriteCallDelay 40ms (the binlog lags the SQL transaction by up to 40 ms, several commit periods), no rotation; sequence numbers and model states are fixed inside the (serialised) callback", mc.Pick(3, 5))
 	rep.Bounds["modes"] = []string{"WaitCommit", "NoWaitCommit"}
 	rep.Bounds["syscalls"] = c17Syscalls
 	rep.Assume("kill points of OBSERVED thread schedules are enumerated, not all schedules (the engine's goroutines and SQLite's C code run free); the oracle is an invariant of any crash state, so schedule variation changes the visited states, never the verdict on correct code")
@@ -1226,7 +1234,13 @@ func TestVerifC17(t *testing.T) {
 	// that they never crowd a different violation out of the driver's short list
 	var lateMu sync.Mutex
 	var late []c17Verdict
+	sigCount := map[string]int{} // how many crash states / runs showed each signature (the report keeps 3 examples)
 	emit := func(vs []c17Verdict) {
+		lateMu.Lock()
+		for _, v := range vs {
+			sigCount[v.Sig]++
+		}
+		lateMu.Unlock()
 		for _, v := range vs {
 			if v.Sig == "C17:restart-fails-after-kill-in-binlog-rotation" {
 				lateMu.Lock()
@@ -1416,6 +1430,7 @@ func TestVerifC17(t *testing.T) {
 	}
 	sort.Strings(siteList)
 	rep.Parts["kill_sites"] = map[string]any{"distinct": len(siteList), "list": siteList}
+	rep.Parts["violations_by_signature"] = sigCount
 	rep.Parts["tracer"] = map[string]any{"ptrace_stops": cfg.stops.Load(), "child_wall_s_total": float64(cfg.childNs.Load()) / 1e9}
 	rep.Parts["runs"] = map[string]any{"kill_points_tried": len(jobs), "not_killed_because_run_was_shorter": survived.Load(), "child_timeouts": timeouts.Load(), "crash_states_with_db_and_binlog_disagreeing": nontriv.Load()}
 	execs.Add(cfg.rebuilds.Load()) // fresh rebuilds run the real engine too
